@@ -201,7 +201,7 @@ def main(prop, cfg):
     if cfg.get("sweep", True) and cfg.get("layer_c", True):
         from corpus import random_defs as RD
         thorough = C.TIER == "thorough"
-        n_rand = int(os.environ.get("VERIF_SWEEP_DEFS", "400" if thorough else "60"))
+        n_rand = int(os.environ.get("VERIF_SWEEP_DEFS", "600" if thorough else "150"))
         maxlen = 6 if thorough else 5
         rdefs = [d for d in RD.make(1000 + C.SEED, n_rand) if prop in d["props"]]
         cdefs = [d for d in D.by_prop(prop, "thorough") if d.get("form", "step") == "step" and not d.get("via")]
